@@ -243,6 +243,7 @@ def decide(pid, tier, seed, results, t0, replay=False):
 			"hashseed_digest_groups_compared": digest_groups,
 			"hashseed_result_digests_compared": digest_cases,
 			"serif_functions_entered": len(funcs),
+			"serif_functions_entered_names": sorted(funcs),
 			"anchor_functions_required": sorted(anchors),
 			"anchor_functions_missing": sorted(a for a in anchors if a not in funcs),
 			"known_finding_hits": [{"signature": k["signature"], "count": v["count"]} for k, v in known_hits],
